@@ -314,3 +314,76 @@ PROPS["C02"] = dict(
              "capacities more than 2 above the minimum combined with two cuts"],
     assumptions=ENGINE_ASSUMPTIONS + ["the single-call run of the same real decoder is the yardstick (its conformance is C01)"],
 )
+
+
+# ----------------------------------------------------------------------------------------------- C10
+def c10_jobs(tier, seed):
+    jl = []
+    q = tier == "quick"
+    rnd = random.Random(seed)
+    SINKS = ("utf16", "utf8", "str", "String")
+    MODES = {0: "off", 1: "remove", 2: "sniff"}
+    CLS = ("EF..", "FE/FF..", "other")
+
+    def add(enc, n1, sink, repl, cls, bom, cmin, cmax, ncuts, el=1, weight=30, **kw):
+        jl.append(J("se_h_c10_bom", {0: E[enc], 1: 0, 2: n1, 3: sink, 4: repl, 5: cls, 8: bom, 9: cmin, 10: cmax, 11: ncuts, 12: el},
+                    label="%s mode=%s n<=%d first=%s sink=%s repl=%d cap=%d..%d cuts=%d" % (enc, MODES[bom], n1, CLS[cls], SINKS[sink], repl, cmin, cmax, ncuts),
+                    need=[9999], weight=weight + (1000 if kw.get("mem_gb") else 0), time_budget=900 if q else 3000, **kw))
+    cjk = ("Big5", "EUC-JP", "EUC-KR", "GBK", "Shift_JIS", "gb18030")
+    if q:
+        sniff = ["windows-874", "ISO-2022-JP", "windows-1252", "UTF-8", "UTF-16LE", "UTF-16BE", "replacement", "x-user-defined",
+                 "Big5", "Shift_JIS", "gb18030", ENC_NAMES[rnd.choice(SINGLE)], rnd.choice(["EUC-JP", "EUC-KR", "GBK"])]
+    else:
+        sniff = list(ENC_NAMES)
+    for enc in dict.fromkeys(sniff):
+        n1 = 3 if enc in cjk else 4
+        if not q and enc not in cjk:
+            n1 = 5
+        if enc == "UTF-8":
+            n1 = 3 if q else 4          # the UTF-8 decoder alone has ~1100 data paths per 3 bytes
+        n1b = 2 if (q and enc in ("gb18030", "GBK")) else n1     # FE/FF are gb18030 leads: whole-table facts
+        big = dict(mem_gb=10) if enc in ("gb18030", "GBK") else {}
+        # first byte EF: the withheld EF BB x family
+        add(enc, n1, 0, 0, 0, 2, 24, 24, 3)                 # UTF-16, spans, large sink, three cuts
+        add(enc, n1, 1, 1, 0, 2, 4, 4, 2)                   # UTF-8 replacing, documented minimum sink
+        add(enc, n1, 1, 0, 0, 2, 4, 5, 2, el=0)             # UTF-8 without replacement, capacities 4..5
+        # first byte FE / FF
+        add(enc, n1b, 0, 1, 1, 2, 2, 2, 3, **big)           # UTF-16 replacing, minimum sink, three cuts
+        add(enc, n1b, 1, 0, 1, 2, 24, 24, 2, **big)
+        # anything else: nothing may be withheld or stripped
+        add(enc, 2, 0, 0, 2, 2, 2, 3, 2, weight=10, **big)
+        if not q:
+            for sink in (2, 3):
+                for cls in (0, 1):
+                    add(enc, n1, sink, 1, cls, 2, 4, 4, 2)
+                    add(enc, n1, sink, 0, cls, 2, 4, 5, 2, el=0)
+    # BOM removal strips only its own BOM; no-BOM mode strips nothing
+    for enc in (["UTF-8", "UTF-16LE", "UTF-16BE", "windows-1252", "ISO-2022-JP"] if q else ENC_NAMES):
+        n1 = 3 if (enc in cjk or (q and enc == "UTF-8")) else 4
+        for bom in (1, 0):
+            for cls in (0, 1):
+                add(enc, n1, 0, 0, cls, bom, 24, 24, 2, weight=20)
+                add(enc, n1, 1, 1, cls, bom, 4, 4, 2, weight=20)
+    jl.append(J("se_h_c10_for_bom", {1: 5}, label="Encoding::for_bom on every buffer of length 0..5", need=[9999, 50, 51], weight=1))
+    return jl
+
+
+PROPS["C10"] = dict(
+    cfgs=["verif_c10"], level="model_checking", jobs=c10_jobs,
+    need_global=[40, 41, 42, 43, 44, 30, 20, 21],
+    explanation=("A decoder in each BOM mode (sniffing, BOM removal, no BOM handling) is run through the public API on a stream of N fully symbolic "
+                 "bytes that is cut at up to three symbolic points among its first four bytes (empty buffers and an empty final call included), with "
+                 "output capacities at the documented minimum and large. Its output, its Malformed reports as absolute spans, had_errors and "
+                 "encoding() are asserted equal to the Standard's decode algorithm: BOM sniff over the first 2-3 bytes, then the transcribed "
+                 "reference decoder of the selected encoding over the rest. Encoding::for_bom is checked on every buffer of length 0..5. "
+                 "z3 decides every branch and assertion per path."),
+    bounds=lambda tier: ("streams of N<=%s symbolic bytes (N<=3 for the CJK nominal encodings; quick: N<=3 for nominal UTF-8 and N<=2 for gb18030 outside the EF class), sharded by the class of the first byte (EF / FE,FF / other); up to three "
+                         "symbolic cuts within the first four bytes, optional empty final call; sinks %s; capacities: documented minimum (4 bytes / 2 units), 4..5, and large (24); "
+                         "nominal encodings: %s" % (("4", "UTF-16 and UTF-8 slices", "13 for sniffing (windows-874, ISO-2022-JP, windows-1252, UTF-8, UTF-16LE/BE, replacement, x-user-defined, Big5, Shift_JIS, "
+                                                     "gb18030 and two seed-chosen ones), 5 for the removal and no-BOM modes")
+                                                    if tier == "quick" else ("5", "UTF-16 slice, UTF-8 slice, &mut str, String", "all 40 in all three modes"))),
+    outside=["streams longer than N bytes", "cuts after the fourth byte (covered by C02 for the no-BOM mode)",
+             "content of trusted index data (see C01)"],
+    assumptions=ENGINE_ASSUMPTIONS + ["reference decoders and reference indexes as in C01",
+                                      "the Standard's BOM sniff is the three-prefix test EF BB BF / FE FF / FF FE on the start of the stream"],
+)
